@@ -24,6 +24,7 @@ func checkC05(c *Ctx) {
 	p := mustLoad(c, K1)
 	eff := sharedEffects(p)
 	pkgs := pairingPkgs(p)
+	argRoleLint(c, p, append(append([]string{}, pkgs...), "ecc/*/internal/fptower")...)
 	c.Rule("C05.guard", "GUARD: MillerLoop and MillerLoopFixedQ return a nil error only with n != 0 and equal lengths of the two argument lists (size mismatches are errors); Pair/PairFixedQ/PairingCheck/PairingCheckFixedQ only after a successful Miller loop / pairing", 7*6)
 	c.Rule("C05.struct", "STRUCTURE: the four computation variants share one pipeline per kind: Pair returns FinalExponentiation applied to the MillerLoop result; PairingCheck returns the comparison of the Pair result with one; the FixedQ variants likewise over MillerLoopFixedQ — so the variants cannot diverge in the final exponentiation or the comparison", 7*4)
 	c.Rule("C05.filter", "FILTER: in MillerLoop a pair is kept (appended to the working lists) only on the path where neither member is the point at infinity", 7)
